@@ -14,6 +14,10 @@ import (
 // S is the scheduler of the current controlled execution (nil = pass-through).
 var S *sched.Scheduler
 
+// Virtual holds the ids of scheduler threads that model a registered callback which has not fired
+// (context.AfterFunc): they are not goroutines and must not be reported as leaked.
+var Virtual = map[int]bool{}
+
 // HB is the happens-before tracker of the current execution.
 var HB *Tracker
 
@@ -31,6 +35,7 @@ func Install(s *sched.Scheduler) {
 	Spawned = 0
 	NPoints = 0
 	loadHist = map[loadKey]int{}
+	Virtual = map[int]bool{}
 }
 
 // Uninstall returns to pass-through mode.
@@ -189,4 +194,28 @@ func SelectPoint() {
 		return
 	}
 	S.Point("select")
+}
+
+// GoBlocked spawns a scheduler thread that first blocks until pred holds and then runs f.
+func GoBlocked(name string, pred func() bool, f func()) {
+	parent := S.Current()
+	Spawned++
+	var child int
+	child = S.Go(fmt.Sprintf("%s#%d", name, Spawned), func() {
+		NPoints++
+		S.Block(name, pred)
+		delete(Virtual, child)
+		f()
+	})
+	// until it starts this thread stands for a registered callback, not for a goroutine
+	Virtual[child] = true
+	HB.Fork(parent, child)
+	S.Point("after " + name)
+}
+
+// AcquireGlobal joins the global channel clock (see GlobalChanKey).
+func AcquireGlobal() {
+	if S != nil {
+		HB.Acquire(S.Current(), GlobalChanKey)
+	}
 }
